@@ -390,7 +390,8 @@ func Files(p *Prog) (string, map[string]string, map[string]int) {
 	for k, m := range p.Mods {
 		r := &R{Map: lmap}
 		for _, i := range m.Imports {
-			r.emit(0, "导入“"+p.Mods[i-1].Name+"”")
+			il := r.emit(0, "导入“"+p.Mods[i-1].Name+"”")
+			r.Map[fmt.Sprintf("H%d:%d", k+1, il)] = il // import statements are executed when the file is loaded, like the definitions' headers
 		}
 		for _, c := range p.Classes {
 			if c.Mod != k+1 {
@@ -434,7 +435,8 @@ func program(p *Prog, lmap map[string]int) (string, map[string]int) {
 			}
 			line += "之" + strings.Join(ns, "、")
 		}
-		r.emit(0, line)
+		il := r.emit(0, line)
+		r.Map[fmt.Sprintf("H0:%d", il)] = il
 	}
 	for ci, c := range p.Classes {
 		if c.Mod != 0 {
